@@ -101,6 +101,9 @@ def main():
             prop.replay(rep, run, json.load(open(a.replay)), driver_ok)
         else:
             prop.explore(rep, run, core.rng_for(seed, prop.id), tier, driver_ok)
+            if not getattr(prop, "no_generic_corr", False):
+                from props.base import PropBase
+                PropBase.generic_corr(prop, rep, run, core.rng_for(seed + 7919, prop.id), tier, driver_ok)
     except Broken as e:
         broken.append(e.what + " " + e.detail[:800])
         rep.oblige(e.what, False, e.detail[:300])
